@@ -68,22 +68,74 @@ Proof.
   rewrite !Z.min_l by lia. destruct (Z.leb_spec 0 o); [|lia]. cbn [Z.to_nat skipn]. rewrite firstn_length. lia.
 Qed.
 
+
+(* ---------- lbuf_edit and the cut into lines ---------- *)
+Lemma split_text_line l : line_wf l -> split_text l = [l].
+Proof.
+  intros (body & -> & Hb). induction Hb as [|c body Hc Hb IH]; cbn [app split_text].
+  - reflexivity.
+  - unfold is_nlb. destruct (N.eqb_spec (b0 c) 10); [contradiction|]. rewrite IH. reflexivity.
+Qed.
+Lemma split_text_app_line l t : line_wf l -> split_text (l ++ t) = l :: split_text t.
+Proof.
+  intros (body & -> & Hb). induction Hb as [|c body Hc Hb IH]; cbn [app split_text].
+  - reflexivity.
+  - unfold is_nlb. destruct (N.eqb_spec (b0 c) 10); [contradiction|]. fold (is_nlb c). rewrite IH. reflexivity.
+Qed.
+Lemma split_text_concat ls : Forall line_wf ls -> split_text (concat ls) = ls.
+Proof. induction 1 as [|l ls Hl _ IH]; cbn [concat]; [reflexivity|]. rewrite split_text_app_line by assumption. rewrite IH. reflexivity. Qed.
+
+Lemma sub_l_firstn (l : line) o : 0 <= o <= slen l -> sub_l l 0 o = firstn (Z.to_nat o) l.
+Proof.
+  intro H. unfold sub_l, slen in *. destruct (Z.ltb_spec 0 0); [lia|]. destruct (Z.ltb_spec o 0); [lia|].
+  rewrite !Z.min_l by lia. destruct (Z.leb_spec 0 o); [|lia]. cbn [Z.to_nat skipn]. rewrite Z.sub_0_r. reflexivity.
+Qed.
+Lemma sub_l_skipn (l : line) o : 0 <= o <= slen l -> sub_l l o (-1) = skipn (Z.to_nat o) l.
+Proof.
+  intro H. unfold sub_l, slen in *. destruct (Z.ltb_spec o 0); [lia|]. change (-1 <? 0) with true. cbv iota.
+  rewrite Z.min_l by lia. destruct (Z.leb_spec o (Z.of_nat (length l))); [|lia].
+  apply firstn_all2. rewrite skipn_length. lia.
+Qed.
+Lemma sub_l_mid (l : line) o1 o2 : 0 <= o1 <= o2 -> o2 <= slen l -> sub_l l o1 o2 = firstn (Z.to_nat (o2 - o1)) (skipn (Z.to_nat o1) l).
+Proof.
+  intros H1 H2. unfold sub_l, slen in *. destruct (Z.ltb_spec o1 0); [lia|]. destruct (Z.ltb_spec o2 0); [lia|].
+  rewrite !Z.min_l by lia. destruct (Z.leb_spec o1 o2); [|lia]. reflexivity.
+Qed.
+(* before ++ after of a well-formed line pair is one well-formed line *)
+Lemma cut_wf (l1 l2 : line) o1 o2 : line_wf l1 -> line_wf l2 -> 0 <= o1 <= slen l1 - 1 -> 0 <= o2 <= slen l2 - 1 ->
+  line_wf (sub_l l1 0 o1 ++ sub_l l2 o2 (-1)).
+Proof.
+  intros (b1 & -> & H1) (b2 & -> & H2) Ho1 Ho2. unfold slen in *. rewrite app_length in *. cbn [length] in *.
+  rewrite sub_l_firstn by (unfold slen; rewrite app_length; cbn [length]; lia).
+  rewrite sub_l_skipn by (unfold slen; rewrite app_length; cbn [length]; lia).
+  rewrite firstn_app. replace (Z.to_nat o1 - length b1)%nat with 0%nat by lia. cbn [firstn]. rewrite app_nil_r.
+  rewrite skipn_app. replace (Z.to_nat o2 - length b2)%nat with 0%nat by lia. cbn [skipn].
+  exists (firstn (Z.to_nat o1) b1 ++ skipn (Z.to_nat o2) b2). split; [rewrite app_assoc; reflexivity|].
+  apply Forall_app. split; [apply Forall_firstn'|apply Forall_skipn']; assumption.
+Qed.
+Lemma lbuf_edit_some b t r n : 0 <= r -> 0 <= n -> r + n <= blen b -> lbuf_edit b (Some t) r (r + n) = set_row b r (split_text t) n.
+Proof. intros. unfold lbuf_edit. rewrite !Z.min_l by lia. f_equal. lia. Qed.
+Lemma lbuf_edit_none b r n : 0 <= r -> 0 < n -> r + n <= blen b -> lbuf_edit b None r (r + n) = set_row b r [] n.
+Proof. intros. unfold lbuf_edit. rewrite !Z.min_l by lia. destruct (Z.eqb_spec r (r + n)); [lia|]. f_equal. lia. Qed.
+
 (* character-wise delete inside one line: the register holds exactly the region's text, the line is
    before ++ after, and putting that text back before offset o1 (P) restores the buffer *)
-Lemma delete_put_chars b R y r o1 o2 l : getl b r = Some l -> 0 <= o1 <= o2 -> o2 <= slen l - 1 -> c_isupper y = false -> y <> 34%N ->
+Lemma delete_put_chars b R y r o1 o2 l : getl b r = Some l -> line_wf l -> 0 <= o1 <= o2 -> o2 <= slen l - 1 -> c_isupper y = false -> y <> 34%N ->
   let g := mk_region r o1 r o2 false in
   let '(b', R') := vi_delete b R y g in
   reg_get R' y = Some (flat (sub_l l o1 o2), false) /\
   getl b' r = Some (sub_l l 0 o1 ++ sub_l l o2 (-1)) /\
   put_chars b' r o1 (sub_l l o1 o2) = b.
 Proof.
-  intros El H1 H2 Hy Hq. cbv zeta. unfold vi_delete. cbn [g_ln g_r1 g_r2 g_o1 g_o2]. rewrite El.
-  unfold lbuf_region. rewrite El, Z.eqb_refl. replace (r - r + 1) with 1 by lia.
+  intros El Hwf H1 H2 Hy Hq. cbv zeta. unfold vi_delete. cbn [g_ln g_r1 g_r2 g_o1 g_o2]. rewrite El. cbn [optl].
+  unfold lbuf_region. rewrite El, Z.eqb_refl.
   split; [apply put_get_plain; assumption|].
   pose proof (getl_nth _ _ _ El) as [Hr En].
   assert (Hlen : (Z.to_nat r < length b)%nat) by (apply nth_error_Some; congruence).
+  rewrite lbuf_edit_some by (unfold blen; lia).
+  rewrite (split_text_line _ (cut_wf l l o1 o2 Hwf Hwf ltac:(lia) ltac:(lia))).
   set (nl := sub_l l 0 o1 ++ sub_l l o2 (-1)).
-  assert (G : getl (set_row b r [nl] 1) r = Some nl).
+  assert (G : getl (set_row b r (@cons line nl nil) 1) r = Some nl).
   { unfold getl, set_row. destruct (Z.ltb_spec r 0); [lia|].
     rewrite nth_error_app2 by (rewrite firstn_length; lia). rewrite firstn_length, Nat.min_l by lia.
     rewrite Nat.sub_diag. reflexivity. }
@@ -102,8 +154,8 @@ Proof.
   rewrite Eb, <- Ell. rewrite !firstn_app_exact.
   replace (S (length l1)) with (length (l1 ++ [l])) by (rewrite app_length; cbn; lia).
   change (l1 ++ l :: l2) with (l1 ++ [l] ++ l2). rewrite (app_assoc l1 [l] l2), skipn_app_exact.
-  replace (length (l1 ++ [l])) with (length (l1 ++ [nl])) by (rewrite !app_length; reflexivity).
-  rewrite (app_assoc l1 [nl] l2), skipn_app_exact. rewrite <- app_assoc. reflexivity.
+  replace (length (l1 ++ [l])) with (length (l1 ++ (@cons line nl nil))) by (rewrite !app_length; reflexivity).
+  rewrite (app_assoc l1 (@cons line nl nil) l2), skipn_app_exact. rewrite <- app_assoc. reflexivity.
 Qed.
 
 (* line-wise delete: the register holds the lines' text, the lines are removed, and putting them back
@@ -117,8 +169,11 @@ Lemma delete_put_lines b R y r1 r2 : 0 <= r1 <= r2 -> r2 < blen b -> c_isupper y
   put_lines b' r1 ls = b.
 Proof.
   intros H1 H2 Hy Hq. cbv zeta. unfold vi_delete. cbn [g_ln g_r1 g_r2 g_o1 g_o2].
-  split; [apply put_get_plain; assumption|]. unfold set_row. cbn [app].
-  replace (r1 + (r2 - r1 + 1)) with (r2 + 1) by lia. split; [reflexivity|].
+  split; [apply put_get_plain; assumption|].
+  assert (E : lbuf_edit b None r1 (r2 + 1) = firstn (Z.to_nat r1) b ++ skipn (Z.to_nat (r2 + 1)) b).
+  { replace (r2 + 1) with (r1 + (r2 - r1 + 1)) at 1 by lia. rewrite lbuf_edit_none by lia. unfold set_row. cbn [app].
+    replace (r1 + (r2 - r1 + 1)) with (r2 + 1) by lia. reflexivity. }
+  rewrite E. split; [reflexivity|].
   unfold put_lines, set_row, rows_between, blen in *.
   assert (Hl : (Z.to_nat r1 <= length b)%nat) by lia.
   rewrite firstn_app, firstn_firstn, Nat.min_id, firstn_length, Nat.min_l by lia. rewrite Nat.sub_diag. cbn [firstn]. rewrite app_nil_r.
@@ -150,14 +205,35 @@ Proof.
   apply Forall_app. split; [|apply Forall_skipn', Hb]. constructor; [|constructor].
   unfold line_valid. apply Forall_app. split; [apply sub_l_valid, Hl|]. apply Forall_app. split; [exact Ht|apply sub_l_valid, Hl].
 Qed.
+Lemma nlc_valid : chr_valid nlc.
+Proof. exists 10%N. split; [unfold scalar; lia|reflexivity]. Qed.
+Lemma split_text_valid t : line_valid t -> Forall line_valid (split_text t).
+Proof.
+  unfold line_valid. induction 1 as [|c t Hc Ht IH]; cbn [split_text]; [constructor|].
+  destruct (is_nlb c).
+  - constructor; [repeat constructor; assumption|exact IH].
+  - destruct (split_text t) as [|l ls].
+    + repeat constructor; [assumption|apply nlc_valid].
+    + inversion IH; subst. constructor; [constructor; assumption|assumption].
+Qed.
+Lemma set_row_valid b r ls n : buf_valid b -> Forall line_valid ls -> buf_valid (set_row b r ls n).
+Proof.
+  intros Hb Hl. unfold set_row, buf_valid in *. apply Forall_app. split; [apply Forall_firstn', Hb|].
+  apply Forall_app. split; [exact Hl|apply Forall_skipn', Hb].
+Qed.
+Lemma lbuf_edit_valid b t beg en : buf_valid b -> match t with Some t => line_valid t | None => True end -> buf_valid (lbuf_edit b t beg en).
+Proof.
+  intros Hb Ht. unfold lbuf_edit. destruct t as [t|].
+  - apply set_row_valid; [exact Hb|apply split_text_valid, Ht].
+  - destruct (_ =? _); [exact Hb|apply set_row_valid; [exact Hb|constructor]].
+Qed.
+Lemma optl_valid b r : buf_valid b -> line_valid (optl (getl b r)).
+Proof.
+  intro Hb. destruct (getl b r) as [l|] eqn:E; cbn [optl]; [|constructor].
+  apply getl_some in E. unfold buf_valid in Hb. rewrite Forall_forall in Hb. apply Hb, E.
+Qed.
 Lemma vi_delete_valid b R y g : buf_valid b -> buf_valid (fst (vi_delete b R y g)).
 Proof.
-  intro Hb. unfold vi_delete. destruct (g_ln g); cbn [fst].
-  - unfold set_row, buf_valid in *. cbn [app]. apply Forall_app. split; [apply Forall_firstn', Hb|apply Forall_skipn', Hb].
-  - destruct (getl b (g_r1 g)) as [l1|] eqn:E1; [|exact Hb]. destruct (getl b (g_r2 g)) as [l2|] eqn:E2; [|exact Hb]. cbn [fst].
-    assert (H1 : line_valid l1). { apply getl_some in E1. unfold buf_valid in Hb. rewrite Forall_forall in Hb. apply Hb, E1. }
-    assert (H2 : line_valid l2). { apply getl_some in E2. unfold buf_valid in Hb. rewrite Forall_forall in Hb. apply Hb, E2. }
-    unfold set_row, buf_valid in *. apply Forall_app. split; [apply Forall_firstn', Hb|].
-    apply Forall_app. split; [|apply Forall_skipn', Hb]. constructor; [|constructor].
-    unfold line_valid. apply Forall_app. split; apply sub_l_valid; assumption.
+  intro Hb. unfold vi_delete. destruct (g_ln g); cbn [fst]; apply lbuf_edit_valid; try exact Hb; [exact I|].
+  unfold line_valid. apply Forall_app. split; apply sub_l_valid, optl_valid, Hb.
 Qed.
